@@ -4,7 +4,7 @@ import GrpcModel.Model.RecvBuffer
 component `recvbuffer` (C05).  Ops (one goroutine drives the real recvBuffer + recvBufferReader):
 
   cfg <0|1>          envconfig.EnableReceiveBufferCompaction for this case (first op; default 1)
-  consts             → `<recvMsgSize> <utilizationFactor> <compactionThreshold>` of the real package
+  consts             → `<recvMsgSize> <rbUtilizationFactor> <compactionThreshold>` of the real package
   put d <hex>        recvBuffer.put(recvMsg{buffer: mem.Copy(bytes)})
   put e <k>          recvBuffer.put(recvMsg{err: k})            (1 = io.EOF)
   load               recvBuffer.load()
@@ -91,7 +91,7 @@ def step (st : DState) (fs : List String) (impl : String) : DState × String × 
     if st.started then (st, "late-cfg", "-") else
     ({ st with s := init (c != "0"), started := true }, "ok", "-")
   | ["consts"] =>
-    (st, s!"{recvMsgSize} {GrpcModel.Generated.utilizationFactor} {compactionThreshold}", "-")
+    (st, s!"{recvMsgSize} {GrpcModel.Generated.rbUtilizationFactor} {compactionThreshold}", "-")
   | _ =>
     match parseOp fs with
     | none => (st, "bad-op", "-")
